@@ -29,7 +29,9 @@ func init() {
 		Rule: "bit-sliced states (2 x 729 words): uniform random words, all-zero, all-one, a single bit, a single word, every lane a valid trit state, lanes with the fourth code (0,0), lane-permuted copies (permuting lanes must commute with the permutation), states captured from real sponge use. Each state goes through the build-selected transform (assembly in the default build) on plain arrays, through the portable transform, through the build-selected transform with all four buffers inside guard-page arenas flush against the upper and then the lower guard (stray access = fault with the address as witness; canaries in the RW slack), and through a per-lane model: 81 rounds of the round function on 2-bit (l,h) codes with the 364/-365 walk, built from the boolean s-box formula and self-tested against the Curl-P truth table. All results must agree on all 2 x 729 words; concurrent: both permutations called from 8 goroutines at once on their own buffers must give the model's results; digests of all results must be equal in the default and purego builds. " +
 			"Non-trivial: distinct states other than all-zero / all-one.",
 		Assumptions: []string{"the routine has no data-dependent branch or address (loop counters are immediates), so one fenced execution per placement observes every access it can make", "the fence sees accesses within 1 MiB of a buffer", "amd64 only", "per-lane model in harness/prop/c20 (self-tested against the Curl-P truth table and the single-lane model of oracle/curlp)"},
-		Builds:      []string{"default", "default+cpuoff", "purego", "386"}, // +cpuoff: the default binary with GODEBUG=cpu.all=off (fallback paths of run-time CPU dispatch)
+		Builds:      []string{"default", "default+cpuoff", "purego", "386", "race"}, // +cpuoff: the default binary with GODEBUG=cpu.all=off (fallback paths of run-time CPU dispatch)
+		// race build: only the classes in which several goroutines are inside the library at once, under the race detector
+		RaceClasses: []string{"concurrent"},
 		SelfTest:    selfTest,
 		Gen:         gen,
 		Judge:       judge,
@@ -383,6 +385,14 @@ func judge(class string, key []byte, o *fw.Obs) {
 }
 
 func gen(g *fw.Gen) {
+	if g.Build == "race" {
+		// race build: only the class in which several goroutines are inside the library at once is generated
+		// (the generator of the other classes is expensive under the race detector's instrumentation)
+		for n := g.ShareOf(32, 1600); n > 0; n-- {
+			g.Emit("concurrent", fw.Pack([]byte{0}, fw.U64(g.Rng.Uint64())))
+		}
+		return
+	}
 	for n := g.ShareOf(32, 1600); n > 0; n-- {
 		g.Emit("concurrent", fw.Pack([]byte{0}, fw.U64(g.Rng.Uint64())))
 	}
